@@ -2,8 +2,8 @@ SPECIFICATION Spec
 CONSTANTS
   Keys = {"k1","k2","k3","k4"}
   Vals = {"v1","v2"}
-  MaxCap = 3
-  L = 4
+  Caps = {1,2,3}
+  L = 3
 CONSTRAINT Bound
 INVARIANT Emit
 CHECK_DEADLOCK FALSE
